@@ -335,8 +335,8 @@ def cop(o):
         return f"(All {cbool(o[1])})"
     if k == "len":
         return "Len"
-    if k == "iter":
-        return "Iter"
+    if k in ("iter", "file"):
+        return "Iter"                 # "file": the rows an independent reader decodes from the database file
     if k == "get_measurements":
         return "GetMeasurements"
     if k == "get_tag_keys":
